@@ -49,7 +49,9 @@ class Schema:
             if k == "type":
                 out.append("%s = %s" % (n, ty_cddl(b)))
             else:
-                out.append("%s = (%s)" % (n, grp_cddl(b, False)))
+                # `g0 = (g1)` is ambiguous in CDDL (a parenthesised TYPE named g1 or a group with one entry) and the crate
+                # reads it as a type rule; a trailing comma makes the group reading the only one
+                out.append("%s = (%s%s)" % (n, grp_cddl(b, False), "," if b[0] == "gref" else ""))
         return "\n".join(out) + "\n"
 
     def sexp(self):
